@@ -1306,6 +1306,13 @@ def limits_case(case):
     return dict(case, layers=[[case['has_min'], case['has_max'], case['has_limits'], False, False]], wlayer=0, ops=ops)
 
 
+def limits_ro(case):
+    """per class (MRO order): the readonly property its body gives <p> (None: nothing; the class declaring <p> always sets it)"""
+    ro = list(case.get('ro') or [None] * len(case['layers']))
+    ro[-1] = bool(ro[-1])
+    return ro
+
+
 def build_limits_class(case, cur):
     """the class hierarchy of the case.  case['layers'] = the classes in MRO order (most derived first), each
     [declares <p>_min, declares <p>_max, declares <p>_limits, defines check_<p>, is a plain mixin]; the last one declares <p>"""
@@ -1314,6 +1321,7 @@ def build_limits_class(case, cur):
     p = case['pname']
     layers = case['layers']
     n = len(layers)
+    ro = limits_ro(case)
     lo, hi = case['lo'] / LSCALE, case['hi'] / LSCALE
     dt = IntRange(int(lo), int(hi)) if case['int'] else FloatRange(lo, hi)
 
@@ -1339,9 +1347,11 @@ def build_limits_class(case, cur):
         dmin, dmax, dlim, own, _ = layers[i]
         ns = {}
         if i == n - 1:
-            ns[p] = Parameter('base', dt, readonly=False, default=case['value0'] / LSCALE)
+            ns[p] = Parameter('base', dt, readonly=bool(ro[i]), default=case['value0'] / LSCALE)
             if p == 'target':
                 ns['value'] = Parameter('value', dt, default=case['value0'] / LSCALE)
+        elif ro[i] is not None:
+            ns[p] = Parameter(readonly=ro[i])      # a subclass overrides the property of the inherited parameter
         for post, decl in (('min', dmin), ('max', dmax), ('limits', dlim)):
             if decl:
                 ns[f'{p}_{post}'] = Limit()
@@ -1366,9 +1376,12 @@ def build_limits_class(case, cur):
 def impl_limits(case):
     cur = {}
     cls = build_limits_class(case, cur)
-    node, conn = new_node({'m': {'cls': cls, 'description': 'x'}}, case.get('omit', False))
-    mod = node.modules['m']
     p = case['pname']
+    mcfg = {'cls': cls, 'description': 'x'}
+    if case.get('ro_cfg') is not None:
+        mcfg[p] = {'readonly': case['ro_cfg']}     # the configuration makes <p> writable (or readonly) for clients
+    node, conn = new_node({'m': mcfg}, case.get('omit', False))
+    mod = node.modules['m']
 
     def ex(n):      # exported name (predefined accessibles and their limits have no underscore)
         return mod.parameters[n].export if n in mod.parameters else '?' + n
@@ -1447,7 +1460,7 @@ def impl_limits(case):
 
 
 def wire_layers(case):
-    return [layer[:4] for layer in case['layers']]
+    return [layer[:4] + [r] for layer, r in zip(case['layers'], limits_ro(case))]
 
 
 def limits_numbers(case, trace):
@@ -1489,11 +1502,11 @@ def wire_limits(case, trace):
     ops = []
     for op in case['ops']:
         if op[0] == 'write':
-            ops.append(['write', lsc(den, op[1]), op[2], lsc(den, op[3])])
+            ops.append(['write', lsc(den, op[1]), op[2], lsc(den, op[3]), op[-1] == 'req'])
         else:
             ops.append([op[0]] + [lsc(den, v) for v in op[1:-1]])
     return {'p': 'C18', 'k': 'limits', 'lo': lsc(den, case['lo']), 'hi': lsc(den, case['hi']), 'layers': wire_layers(case),
-            'hasW': case['hasW'], 'omit': bool(case.get('omit')), 'errs0': trace[0]['errs'],
+            'hasW': case['hasW'], 'omit': bool(case.get('omit')), 'errs0': trace[0]['errs'], 'roCfg': case.get('ro_cfg'),
             'value0': lsc(den, case['value0']), 'ops': ops}
 
 
@@ -1568,6 +1581,22 @@ def gen_limits(rng, big):
             if rng.random() < 0.1:
                 layers[rng.randrange(ncls)][k] = True
     wlayer = rng.choice([i for i in range(ncls) if not layers[i][4]])
+    # who may write <p>: declared readonly in the class (then only the driver writes it: `self.write_<p>(x)`) unless the
+    # configuration makes it writable for clients; now and then a subclass overrides the property, or the configuration
+    # takes the access away.  The limits bind whoever writes.
+    ro = [None] * ncls
+    ro[-1] = rng.random() < 0.35
+    for i in range(ncls - 1):
+        if not layers[i][4] and rng.random() < 0.12:
+            ro[i] = rng.random() < 0.5
+    declared_ro = next(r for r in ro if r is not None)
+    ro_cfg = None
+    if declared_ro:
+        if rng.random() < 0.55:
+            ro_cfg = False
+    elif rng.random() < 0.06:
+        ro_cfg = True
+    client_ok = not (declared_ro if ro_cfg is None else ro_cfg)
 
     def checks():
         return [rng.choice(['pass'] * 8 + [fail_tag(rng), 'stop']) if layer[3] else 'pass' for layer in layers]
@@ -1577,6 +1606,8 @@ def gen_limits(rng, big):
         via = rng.choice(['req', 'call'])
         r = rng.random()
         if r < 0.45:
+            if not client_ok and rng.random() < 0.8:
+                via = 'call'       # readonly for clients: mostly the driver writes
             x = anyval()
             w = rng.choice(['none', 'none', x, fail_tag(rng), inside()])
             ops.append(['write', x, checks(), w, via])
@@ -1611,7 +1642,8 @@ def gen_limits(rng, big):
             x = anyval()
             ops.append(['write', x, checks(), 'none', via])
     return {'kind': 'limits', 'int': is_int, 'lo': lo, 'hi': hi, 'pname': pname, 'has_min': has['min'], 'has_max': has['max'],
-            'has_limits': has['limits'], 'layers': layers, 'wlayer': wlayer, 'hasW': hasW, 'value0': value0, 'ops': ops}
+            'has_limits': has['limits'], 'layers': layers, 'wlayer': wlayer, 'hasW': hasW, 'value0': value0, 'ro': ro,
+            'ro_cfg': ro_cfg, 'ops': ops}
 
 
 def sig_limits(case, bad, trace):
@@ -2143,6 +2175,15 @@ def _run_chunk(ctx, res, cases, offset, ncorpus, shrunk):
             res.count('limits.with-check-method' if any(x[3] for x in lay) else 'limits.no-check-method')
             if any(x[4] for x in lay):
                 res.count('limits.with-mixin')
+            ro_ = limits_ro(limits_case(case))
+            declared = next(r for r in ro_ if r is not None)
+            res.count('limits.declared-' + ('readonly' if declared else 'writable') + {None: '', False: '-cfg-makes-writable',
+                                                                                      True: '-cfg-makes-readonly'}[case.get('ro_cfg')])
+            if any(r is not None for r in ro_[:-1]):
+                res.count('limits.readonly-overridden-in-subclass')
+            for op, t in zip(case['ops'], trace[1:]):
+                if op[0] == 'write' and declared:
+                    res.count(f'limits.write-of-declared-readonly-via-{op[-1]}-' + ('accepted' if t['ok'] else 'refused'))
             for t in trace[1:]:
                 if t['stopAt'] is not None:
                     res.count('limits.check-returned-true')
@@ -2179,7 +2220,8 @@ def _run_chunk(ctx, res, cases, offset, ncorpus, shrunk):
                 else:
                     sbad = sigs[sig]
                 layout = f' (all values x {LSCALE}; classes in MRO order, [min, max, limits declared, own check method, mixin]: ' \
-                         f'{json.dumps(limits_case(small)["layers"])})' if kind == 'limits' else ''
+                         f'{json.dumps(limits_case(small)["layers"])}, readonly set by the classes: {json.dumps(limits_ro(limits_case(small)))}, ' \
+                         f'by the configuration: {json.dumps(small.get("ro_cfg"))})' if kind == 'limits' else ''
                 what = f'{kind}{layout}: after {json.dumps(small["ops"][:sbad])} the recorded values are ' \
                        f'{json.dumps({k: v for k, v in strace[sbad].items() if k != "evs"})}'
                 res.violations.append({'sig': sig, 'what': what, 'case': small,
